@@ -1,0 +1,19 @@
+//go:build verif
+// +build verif
+
+// Verification hook for property C19 (DR auto-sync). Exports only; compiled only with -tags verif.
+package replication
+
+// VerifC19TickDR runs one tick of the DR state machine (the public Run waits a minute before its first tick).
+func (m *ModeManager) VerifC19TickDR() { m.tickDR() }
+
+// VerifC19Cursor is a read-only view of the recovery-scan cursor.
+func (m *ModeManager) VerifC19Cursor() (key []byte, count int) {
+	m.RLock()
+	defer m.RUnlock()
+	return append([]byte(nil), m.drRecoverKey...), m.drRecoverCount
+}
+
+// VerifC19ScanSizes exposes the two package variables that size the recovery scan, so that a harness can
+// lower them and exercise more than one scan batch with a handful of regions.
+func VerifC19ScanSizes() (batch *int, minSample *int) { return &regionScanBatchSize, &regionMinSampleSize }
